@@ -23,6 +23,7 @@ from . import linq_eval as le
 from .core import Streams, mix
 
 ENGINE_VERSION = 1
+SHRINK_EXEC = 3000
 _ADDR = re.compile(r"0x[0-9a-fA-F]+")
 RULE = ("one case = one seeded history (<=25 ops) of a simplifier node: serve a generated closed, "
         "type-correct query (nine fusion pairs, First/Count, tuple/list/dict packaging with constant "
@@ -532,3 +533,118 @@ def signature(case, viol):
     d = viol["detail"]
     return (f"{viol['class']} :: history_dependent={d.get('history_dependent')} :: "
             + ",".join(o["op"] for o in case["ops"]))
+
+
+# ---------------------------------------------------------------------------------------------
+# query-text reduction for the shrinker: replace one sub-expression by one of its children
+# ---------------------------------------------------------------------------------------------
+class _ReplaceNth(ast.NodeTransformer):
+    def __init__(self, n, pick):
+        self.n, self.pick, self.i, self.done = n, pick, -1, False
+
+    def visit(self, node):
+        if isinstance(node, ast.expr) and not self.done:
+            self.i += 1
+            if self.i == self.n:
+                kids = _kids(node, at_root=(self.i == 0))
+                if self.pick < len(kids):
+                    self.done = True
+                    return kids[self.pick]
+        return super().visit(node)
+
+
+def _stage(node):
+    "(op, source, lambda) of a Select/Where/SelectMany call in function or method form."
+    if not isinstance(node, ast.Call):
+        return None
+    if isinstance(node.func, ast.Name) and node.func.id in ("Select", "Where", "SelectMany") \
+            and len(node.args) == 2:
+        return node.func.id, node.args[0], node.args[1]
+    if isinstance(node.func, ast.Attribute) and node.func.attr in ("Select", "Where", "SelectMany") \
+            and len(node.args) == 1:
+        return node.func.attr, node.func.value, node.args[0]
+    return None
+
+
+def _kids(node, at_root=False):
+    """Type-preserving replacements only, so that a reduced query stays inside the claimed
+    family (closed and type-correct): a filter stage by its source, an int expression by an
+    operand or a constant, a conditional by a branch, a projection out of a literal by the
+    projected element; at the root of the query also Select/SelectMany by their source."""
+    kids = []
+    st = _stage(node)
+    if st is not None and (st[0] == "Where" or at_root):
+        kids.append(st[1])
+    if isinstance(node, ast.BinOp):
+        kids += [node.left, node.right, ast.Constant(value=1)]
+    elif isinstance(node, ast.IfExp):
+        kids += [node.body, node.orelse]
+    elif isinstance(node, ast.BoolOp):
+        kids += list(node.values)
+    elif isinstance(node, ast.Compare):
+        kids.append(ast.Constant(value=True))
+    elif isinstance(node, ast.Subscript) and isinstance(node.slice, ast.Constant):
+        v, k = node.value, node.slice.value
+        if isinstance(v, (ast.Tuple, ast.List)) and isinstance(k, int) and 0 <= k < len(v.elts):
+            kids.append(v.elts[k])
+        if isinstance(v, ast.Dict):
+            kids += [val for key, val in zip(v.keys, v.values)
+                     if isinstance(key, ast.Constant) and key.value == k]
+    elif isinstance(node, ast.Attribute) and isinstance(node.value, ast.Dict):
+        kids += [val for key, val in zip(node.value.keys, node.value.values)
+                 if isinstance(key, ast.Constant) and key.value == node.attr]
+    elif isinstance(node, ast.Call):
+        f = node.func
+        if (isinstance(f, ast.Name) and f.id == "Count") or (
+                isinstance(f, ast.Attribute) and f.attr == "Count" and not node.args):
+            kids.append(ast.Constant(value=1))
+        if isinstance(f, ast.Lambda) and len(node.args) == 1 and not node.keywords:
+            p = f.args.args[0].arg
+            if not any(isinstance(n, ast.Name) and n.id == p for n in ast.walk(f.body)):
+                kids.append(f.body)
+    return kids
+
+
+def query_reductions(text, limit=400):
+    try:
+        tree = ast.parse(text, mode="eval")
+    except SyntaxError:
+        return
+    n_expr = sum(1 for n in ast.walk(tree.body) if isinstance(n, ast.expr))
+    made = 0
+    seen = {text}
+    for n in range(n_expr):
+        for pick in range(4):
+            t = _ReplaceNth(n, pick)
+            new = t.visit(ast.parse(text, mode="eval"))
+            if not t.done:
+                break
+            try:
+                out = ast.unparse(ast.fix_missing_locations(new))
+            except Exception:
+                continue
+            if out in seen or len(out) >= len(text):
+                continue
+            seen.add(out)
+            made += 1
+            yield out
+            if made >= limit:
+                return
+
+
+def case_simplifications(case):
+    "Cases with one served query reduced (the reduced text stands for itself)."
+    for i, op in enumerate(case["ops"]):
+        if op["op"] != "serve":
+            continue
+        base = op.get("for", op["q"])
+        if base == op["q"]:
+            for t in query_reductions(op["q"]):
+                ops = list(case["ops"])
+                ops[i] = {"op": "serve", "q": t}
+                yield {**case, "ops": ops}
+        else:
+            # a round-tripped text: reduce the text and let it stand for itself
+            ops = list(case["ops"])
+            ops[i] = {"op": "serve", "q": op["q"]}
+            yield {**case, "ops": ops}
